@@ -298,7 +298,7 @@ func lkGenRoute(t *rapid.T, idx int, file string) lkRoute {
 }
 
 var lkPertKinds = []string{"dropAnn", "dupAnn", "renameRef", "retarget", "strayAnn", "aliasUnknown", "aliasDup", "dupTemplateName", "unboundTemplateName",
-	"aliasWrongType", "prefixParam", "pathNotInTemplate", "extraParam", "twoBodies", "bodyAndForm", "retype", "bodyPrimitive", "results", "verb", "changeKind", "neutralAlias", "secCollision"}
+	"aliasWrongType", "prefixParam", "pathNotInTemplate", "extraParam", "twoBodies", "bodyAndForm", "retype", "bodyPrimitive", "results", "verb", "changeKind", "neutralAlias", "secCollision", "reorderAnns", "bodyAndForm", "secondBinding"}
 
 func lkGen(t *rapid.T) lkModel {
 	var m lkModel
@@ -325,6 +325,42 @@ func lkGen(t *rapid.T) lkModel {
 		m.Perts = append(m.Perts, lkPert{Kind: rapid.SampledFrom(lkPertKinds).Draw(t, "pert"), A: rapid.IntRange(0, 99).Draw(t, "a"), B: rapid.IntRange(0, 99).Draw(t, "b")})
 	}
 	return m
+}
+
+// lkSweep enumerates the catalogue instead of sampling it: for a few generated base projects, every
+// perturbation kind with both parities of its two selectors, aimed at the first route it applies to.
+func lkSweep() []lkModel {
+	var out []lkModel
+	seen := map[string]bool{}
+	kinds := map[string]bool{}
+	for base := 0; base < 2; base++ {
+		m := rapid.Custom(lkGen).Example(base + 1)
+		m.Perts = nil
+		for _, kind := range lkPertKinds {
+			if base == 0 && kinds[kind] {
+				continue // the catalogue lists a weighted kind twice
+			}
+			kinds[kind] = true
+			for ab := 0; ab < 4; ab++ {
+				mm := m
+				mm.Perts = []lkPert{{Kind: kind, A: ab % 2, B: ab / 2}}
+			targets:
+				for ci := range m.Ctrls {
+					for ri := range m.Ctrls[ci].Routes {
+						mm.Target = [2]int{ci, ri}
+						if _, applied := lkApply(mm); len(applied) > 0 {
+							break targets
+						}
+					}
+				}
+				if k := jsonStr(mm); !seen[k] {
+					seen[k] = true
+					out = append(out, mm)
+				}
+			}
+		}
+	}
+	return out
 }
 
 // lkApply returns the perturbed controllers plus, per applied perturbation, what it did.
@@ -426,6 +462,22 @@ func lkApply(m lkModel) ([]lkCtrl, []string) {
 				r.Anns[j].Alias = b
 				applied = append(applied, "aliasDup:"+b)
 			}
+		case "secondBinding":
+			// a second @Path bound to a template name that already has one; nothing else is wrong
+			if i := annIdx(isPath, p.A); i >= 0 && paramIdx("twin") < 0 {
+				b := r.Anns[i].Ref
+				if r.Anns[i].Alias != "" {
+					b = r.Anns[i].Alias
+				}
+				r.Params = append(r.Params, lkParam{"twin", "string"})
+				twin := lkAnn{Kind: "Path", Ref: "twin", Alias: b}
+				if p.B%2 == 1 {
+					r.Anns = append([]lkAnn{twin}, r.Anns...)
+				} else {
+					r.Anns = append(r.Anns, twin)
+				}
+				applied = append(applied, "secondBinding:"+b)
+			}
 		case "dupTemplateName":
 			if names := lkTemplateNames(r.Route); len(names) > 0 {
 				r.Route += "/{" + names[p.A%len(names)] + "}"
@@ -462,15 +514,37 @@ func lkApply(m lkModel) ([]lkCtrl, []string) {
 			}
 		case "bodyAndForm":
 			if paramIdx("bf") < 0 && paramIdx("ff") < 0 {
+				// either order: the exclusion must not depend on which of the two annotations is written first
+				var add []lkAnn
 				if annIdx(func(a lkAnn) bool { return a.Kind == "Body" }, 0) < 0 {
 					r.Params = append(r.Params, lkParam{"bf", "models.Payload"})
-					r.Anns = append(r.Anns, lkAnn{Kind: "Body", Ref: "bf"})
+					add = append(add, lkAnn{Kind: "Body", Ref: "bf"})
 				}
 				if annIdx(func(a lkAnn) bool { return a.Kind == "FormField" }, 0) < 0 {
 					r.Params = append(r.Params, lkParam{"ff", "string"})
-					r.Anns = append(r.Anns, lkAnn{Kind: "FormField", Ref: "ff"})
+					add = append(add, lkAnn{Kind: "FormField", Ref: "ff"})
 				}
-				applied = append(applied, "bodyAndForm")
+				if p.A%2 == 1 && len(add) == 2 {
+					add[0], add[1] = add[1], add[0]
+				}
+				if p.B%2 == 1 {
+					r.Anns = append(add, r.Anns...)
+				} else {
+					r.Anns = append(r.Anns, add...)
+				}
+				applied = append(applied, fmt.Sprintf("bodyAndForm:order%d:front%d", p.A%2, p.B%2))
+			}
+		case "reorderAnns":
+			// neutral: which annotation comes first says nothing about linkage
+			if n := len(r.Anns); n > 1 {
+				k := 1 + p.A%(n-1)
+				r.Anns = append(append([]lkAnn(nil), r.Anns[k:]...), r.Anns[:k]...)
+				if p.B%2 == 1 {
+					for i, j := 0, len(r.Anns)-1; i < j; i, j = i+1, j-1 {
+						r.Anns[i], r.Anns[j] = r.Anns[j], r.Anns[i]
+					}
+				}
+				applied = append(applied, "reorderAnns")
 			}
 		case "retype":
 			if i := annIdx(func(a lkAnn) bool { return a.Kind != "Body" && paramIdx(a.Ref) >= 0 }, p.A); i >= 0 {
